@@ -8,6 +8,7 @@ import Sebuf.DriverC10
 import Sebuf.DriverC13
 import Sebuf.DriverC05
 import Sebuf.DriverOA
+import Sebuf.DriverC17
 namespace Sebuf.DriverOps
 def dispatch (op : String) (j : Lean.Json) : Lean.Json :=
   match op with
@@ -24,6 +25,10 @@ def dispatch (op : String) (j : Lean.Json) : Lean.Json :=
   | "spec_enc" => Sebuf.Driver.opSpecEnc j
   | "oa_wf" => Sebuf.Driver.opOaWf j
   | "schema_valid" => Sebuf.Driver.opSchemaValid j
+  | "oa_components" => Sebuf.Driver.opOaComponents j
+  | "oa_names" => Sebuf.Driver.opOaNames j
+  | "yaml11" => Sebuf.Driver.opYaml11 j
   | "strfn" => Sebuf.Driver.opStrFn j
+  | "c17_calls" => Sebuf.Driver.opC17Calls j
   | _ => Lean.Json.mkObj [("driver_err", Lean.Json.str ("unknown op " ++ op))]
 end Sebuf.DriverOps
